@@ -509,6 +509,12 @@ class LoopRun:
         # 3. arbitrary iteration / exit
         if run.decide(k.t < n, tag=f'loop{ordinal}'):
             item = Sym(xs.kind.elem, xs.t[k.t])
+            # the element visited is a member of the sequence
+            run.axiom(z3.Implies(z3.And(k.t >= 0, k.t < n), z3.Contains(xs.t, z3.Unit(xs.t[k.t]))))
+            en = run.ghost.get('_enum', {}).get(xs.t.sexpr())
+            if en is not None:
+                tk_, st_, base_ = en        # the k-th element of enumerate(base, start) is (k + start, base[k])
+                run.axiom(z3.Implies(z3.And(k.t >= 0, k.t < n), xs.t[k.t] == tk_.mk(k.t + st_, base_[k.t])))
             trace_mark = len(run.trace)
             ex.assign(st.target, item, fr)
             try:
@@ -691,6 +697,12 @@ def run_contract(table, registry, contract, feas_timeout_ms=2000, max_paths=400)
         run.tags.append(f'exit:{outcome["kind"]}' + (f':{outcome["exc"].cls}@{outcome["exc"].origin}' if outcome['kind'] == 'raise' else ''))
         finals.append((run, outcome))
         registry.current = None
+        if outcome['kind'] == 'raise' and not contract.ensures_raise and not contract.ensures_all \
+                and outcome['exc'].cls not in contract.may_raise:
+            # the contract only speaks about normal returns: a path that ends in an exception it does not allow is a failure
+            ob = run.oblige(f'{contract.id}.no_unexpected_exception', 'post', False,
+                            {'clause': None, 'cname': 'no_unexpected_exception', 'outcome': 'raise'})
+            ob.meta['raised'] = avail['raised']
         for cname, fname in clauses:
             pcl = len(run.pc)
             try:
